@@ -151,6 +151,43 @@ PLAN = {
 }
 RANDOM = {'quick': 1500, 'thorough': 20000}
 
+KINDS_CFG = """
+INIT Init
+NEXT Next
+INVARIANT RollbackIsId
+INVARIANT Emit
+"""
+KINDS = {
+    'quick': [('kinds-depth1', {'Sym': '{"a","b"}', 'MaxFile': 2, 'MaxCtx': 1, 'Depth': 1, 'Small': 'FALSE', 'EmitCases': 'TRUE'}),
+              ('kinds-depth2', {'Sym': '{"a"}', 'MaxFile': 2, 'MaxCtx': 1, 'Depth': 2, 'Small': 'TRUE', 'EmitCases': 'TRUE'})],
+    'thorough': [('kinds-depth1', {'Sym': '{"a","b"}', 'MaxFile': 3, 'MaxCtx': 1, 'Depth': 1, 'Small': 'FALSE', 'EmitCases': 'TRUE'}),
+                 ('kinds-depth2', {'Sym': '{"a","b"}', 'MaxFile': 2, 'MaxCtx': 0, 'Depth': 2, 'Small': 'TRUE', 'EmitCases': 'TRUE'}),
+                 ('kinds-depth3', {'Sym': '{"a"}', 'MaxFile': 1, 'MaxCtx': 1, 'Depth': 3, 'Small': 'TRUE', 'EmitCases': 'TRUE'})],
+}
+
+
+def run_kinds(res, tag, consts, work):
+    """C04: stacks of modify/create/delete/mode-change applications, LIFO rollback = identity."""
+    out = os.path.join(work, tag + '.tlc')
+    st = tlc('MC_Kinds', constants=consts, cfg_body=KINDS_CFG, out=out, tag=tag)
+    res.add_tlc(st, tag)
+    rep = json.loads(rqh(['stack', out, seed()]))
+    c = rep['counts']
+    res.cov['parts'][tag].update(c)
+    if c.get('cases', 0) == 0:
+        raise ToolError(tag + ': no cases emitted')
+    res.cov['traces_validated_against_impl'] += c.get('cases', 0)
+    res.cov['evaluations'] += c.get('cases', 0)
+    res.cov['distinct_nontrivial'] += c.get('cases', 0)
+    for s in rep.get('first_cases', [])[:1]:
+        res.sample({'from': tag, 'case': s})
+    for key in ('rollback_panic', 'rollback_mismatch', 'apply_panic'):
+        for s in rep['samples'].get(key, []):
+            res.violation(key, s.get('what', key), s)
+    if c.get('diverges_from_alg', 0):
+        res.diagnostics.append('%s: %d stacks diverge from the algorithm model after apply (not a violation by itself)' % (tag, c['diverges_from_alg']))
+    os.unlink(out)
+
 
 def check(prop, tier):
     res = Result(prop, tier)
@@ -159,6 +196,9 @@ def check(prop, tier):
         for module, tag, consts in PLAN[prop][tier]:
             run_model(res, prop, module, consts, tag, work)
         run_random(res, prop, RANDOM[tier], work)
+        if prop == 'C04':
+            for tag, consts in KINDS[tier]:
+                run_kinds(res, tag, consts, work)
     finally:
         shutil.rmtree(work, ignore_errors=True)
     res.cov['exhaustive'] = True
